@@ -723,6 +723,8 @@ class Engine:
                     return v
                 if isinstance(v, Int) and v.conc():
                     return float(v.sval())
+                if isinstance(v, Int) and (v.vals is not None or v.hi - v.lo <= 64) and (not v.s or v.nonneg()):
+                    return float(self.concretize(v, v.hi, v.lo))      # bounded fork over the possible values
                 raise Unsupported("symbolic integer to float")
             w, s = INT_TY[ty]
             if isinstance(v, float):
@@ -1157,6 +1159,8 @@ def _slice_of(self, items):
 
 
 def _vec_items(self, v):
+    if isinstance(v, list):
+        return v
     l, lo, hi = self.seq_of(v)
     return l[lo:hi]
 
@@ -1181,11 +1185,11 @@ Engine.vec_items = _vec_items
 Engine.eq_bytes = _eq_bytes
 
 
-def _struct(self, name, **fields):
+def _struct(self, struct_name_, **fields):
     """Struct value with fields placed by the declaration order read from the crate source."""
-    order = self.p.structs[name]
-    assert set(fields) == set(order), (name, order, list(fields))
-    return Agg([fields[f] for f in order], None, name)
+    order = self.p.structs[struct_name_]
+    assert set(fields) == set(order), (struct_name_, order, list(fields))
+    return Agg([fields[f] for f in order], None, struct_name_)
 
 
 def _field(self, agg, struct, fname):
